@@ -36,6 +36,8 @@ pub fn check(paths: &[PathBuf], suppress_output: bool) -> Result<(), String> {
         return Err(String::from("Error during analysis"));
     }
 
+    #[cfg(feature = "verif")]
+    crate::verif::probe("check.ok");
     println!("OK");
     Ok(())
 }
@@ -104,6 +106,8 @@ pub fn tokenize(paths: &[PathBuf], suppress_output: bool) -> Result<(), String> 
         }
     }
 
+    #[cfg(feature = "verif")]
+    crate::verif::probe("tokenize.ok");
     println!("OK");
     Ok(())
 }
@@ -154,6 +158,10 @@ fn create_project(paths: &[PathBuf], suppress_output: bool) -> Result<FileBacked
 /// If the path is a file, then returns the file. If the path is a directory,
 /// then returns all files in the directory.
 fn enumerate_files(path: &PathBuf) -> Result<Vec<PathBuf>, Vec<Diagnostic>> {
+    #[cfg(feature = "verif")]
+    use crate::verif::fs::read_dir;
+    #[cfg(feature = "verif")]
+    crate::verif::fs_point("canonicalize", path);
     // Get the canonical path so that error messages are unambiguous
     let path = canonicalize(path).map_err(|e| {
         diagnostic(
@@ -164,6 +172,8 @@ fn enumerate_files(path: &PathBuf) -> Result<Vec<PathBuf>, Vec<Diagnostic>> {
     })?;
 
     // Determine what kind of path we have.
+    #[cfg(feature = "verif")]
+    crate::verif::fs_point("metadata", &path);
     let metadata = metadata(&path)
         .map_err(|e| diagnostic(Problem::CannotReadMetadata, &path, e.to_string()))?;
     if metadata.is_dir() {
@@ -197,6 +207,8 @@ fn handle_diagnostics(
     project: Option<&FileBackedProject>,
     suppress_output: bool,
 ) {
+    #[cfg(feature = "verif")]
+    crate::verif::record_diagnostics(diagnostics, project);
     if !suppress_output {
         let writer = StandardStream::stderr(ColorChoice::Always);
         let config = codespan_reporting::term::Config::default();
@@ -234,6 +246,8 @@ fn handle_diagnostics(
 
             let _ = term::emit(&mut writer.lock(), &config, &files, &diagnostic).map_err(|err| {
                 error!("Failed writing to terminal: {}", err);
+                #[cfg(feature = "verif")]
+                crate::verif::probe("emit.failed");
                 1usize
             });
         });
